@@ -141,6 +141,33 @@ func (c *storeComp) Gen(r *rand.Rand, idx int, emit func(string)) {
 	}
 	id := func() string { return Tok(pick(r, ids)) }
 	acct := func() string { return Tok(pick(r, storeAccts[:2+r.Intn(3)])) }
+	if idx%9 == 4 {
+		// an accepted nonce that has aged (but is still inside the 15-minute window) stays remembered across every
+		// other store operation - keep-alives of any node, registrations, balance updates: its replay and anything
+		// older stay refused, other identities are unaffected
+		who := pick(r, []string{"a", "X", "b"})
+		age := int64(125+r.Intn(760)) * sec
+		emit("setnode a t:0 1 geth ~ ~ 1")
+		emit("setnode b t:0 0 geth ~ ~ 1")
+		emit(fmt.Sprintf("nonce %s %s", who, TTok(-age)))
+		emit(fmt.Sprintf("nonce %s %s", who, TTok(-age)))
+		switch r.Intn(4) {
+		case 0:
+			emit("unp a 3 peers=")
+		case 1:
+			emit("unp b 2 peers=a")
+		case 2:
+			emit("setnode b t:0 0 geth ~ ~ 2")
+			emit("unp b 4 peers=a,a")
+		default:
+			emit("addnb a 7")
+			emit("unp a 1 peers=b")
+		}
+		emit(fmt.Sprintf("nonce %s %s", who, TTok(-age)))
+		emit(fmt.Sprintf("nonce %s %s", who, TTok(-age-int64(1+r.Intn(9))*sec)))
+		emit(fmt.Sprintf("nonce %s %s", pick(r, []string{"c", "Y"}), TTok(-age)))
+		emit(fmt.Sprintf("nonce %s %s", who, TTok(-age+int64(1+r.Intn(100))*sec)))
+	}
 	if idx%100 == 11 {
 		// a peer that is tracked while live, stops checking in, and crosses the expiry boundary while it is no
 		// longer reported (real time has to pass: the recorded check-in only ages)
